@@ -41,6 +41,23 @@ def run(ctx):
             seq = ','.join('%s%d' % (rnd.choice(ops), rnd.randint(1, 5)) for _ in range(30))
             jobs.append('%s/%s;;%s' % (kind, rnd.choice(RECL), seq))
     run_hm(ctx, jobs, pb=2 if q else 3, max_exec=700 if q else 20000)
+    # A: address reuse (ABA).  The heap quarantine of xvrt never hands out an address twice, which hides every defect that needs the address of a
+    # freed node to come back; with --reuse the children recycle freed blocks (LIFO per size class).  An insertion between prev and cur while cur
+    # is erased, reclaimed and its address handed to a new node that becomes prev's successor
+    import xvlib
+    xvlib.EXTRA_ALL[0] = '--reuse'
+    try:
+        ajobs = []
+        for r in (['hp3', 'lfrc'] if q else ['hp3', 'he3', 'lfrc', 'hp1', 'ebr0']):
+            for ins in ('goe3', 'gol3', 'idx3', 'emp3', 'eog3'):
+                for kind in ('map1nc', 'map1mh'):
+                    ajobs.append('%s/%s;emp1,emp5;%s;era5,emp2' % (kind, r, ins))
+                    ajobs.append('%s/%s;emp1,emp4,emp5;%s;era4,emp2,con4' % (kind, r, ins))
+            for ins in ('emp3', 'eog3'):
+                ajobs.append('set/%s;emp1,emp5;%s;era5,emp2' % (r, ins))
+        run_hm(ctx, ajobs, pb=2, max_exec=1500 if q else 20000, tagx='reuse_')
+    finally:
+        xvlib.EXTRA_ALL[0] = ''
     if not q:
         run_hm(ctx, jobs, pb=5, max_exec=0, mode='random', runs=600, tagx='r')
     # S: the impl spec HarrisMichael is bound to the code at the grain of single atomic accesses (link words: null / non-null and delete mark)
